@@ -24,6 +24,7 @@ Files == 1..NF
 \* slot tables for the configurations (a .cfg file cannot hold a tuple)
 Slots221 == <<2, 2, 1>>
 Slots21 == <<2, 1>>
+Slots22 == <<2, 2>>
 Slots11 == <<1, 1>>
 
 VARIABLES tmpl,     \* [file -> sequence of abstract entities]   (the cached templates)
